@@ -27,11 +27,24 @@ type liveCase struct {
 	Late     int     `json:"late_joiner"` // -1 = none
 	Crasher  int     `json:"crasher"`
 	JoinAt   int64   `json:"join_after"`
+	Handover []int   `json:"handover,omitempty"` // validators started through the SwitchToConsensus event
+	SilentP1 bool    `json:"first_proposer_silent,omitempty"`
 }
 
 func genLive(c int64) liveCase {
 	rng := lib.Rand("c12-live", c)
 	lc := liveCase{Case: c, N: 4, Silent: -1, NilVoter: -1, Heights: int64(lib.Pick(6, 12)), Late: -1, Crasher: -1}
+	if c%5 == 4 {
+		// four equal validators, two of them started the way a node with fast_sync=true is (the
+		// consensus state is handed the state by the SwitchToConsensus event), two directly; the
+		// proposer of the first height's round 0 never proposes, so the height the handed-over
+		// validators entered that way needs a round change
+		lc.Powers = []int64{1, 1, 1, 1}
+		lc.Handover = rng.Perm(4)[:2]
+		lc.SilentP1 = true
+		lc.Heights = 5
+		return lc
+	}
 	if c%4 == 3 {
 		// four equal validators: one is cut off until the others have committed two heights, then
 		// another one crashes and the cut-off one (exactly two heights behind) is connected: the rest
@@ -78,7 +91,7 @@ func liveChild(args []string) {
 	dir := lib.Scratch("C12-live")
 	defer lib.RemoveLater(dir)
 	res := sim.RunLive(sim.LiveConfig{N: lc.N, Powers: lc.Powers, Dir: dir, Label: fmt.Sprintf("c12-%d", lc.Case), Heights: lc.Heights,
-		Watchdog: 4 * time.Minute, Silent: lc.Silent, NilVoter: lc.NilVoter, MaxRounds: 25, LateJoiner: lc.Late, Crasher: lc.Crasher, JoinAfter: lc.JoinAt, GossipBound: 3000})
+		Watchdog: 4 * time.Minute, Silent: lc.Silent, NilVoter: lc.NilVoter, MaxRounds: 25, LateJoiner: lc.Late, Crasher: lc.Crasher, JoinAfter: lc.JoinAt, GossipBound: 3000, Handover: lc.Handover, SilentFirstProposer: lc.SilentP1})
 	jb, _ := json.Marshal(res)
 	ioutil.WriteFile(args[1], jb, 0644)
 	os.Exit(0)
@@ -92,7 +105,7 @@ func runLive(run *lib.Run) {
 	}
 	base := lib.Scratch(prop + "-live")
 	defer os.RemoveAll(base)
-	n := lib.Pick(4, 30)
+	n := lib.Pick(5, 30)
 	lib.Parallel(n, 3, func(i int) {
 		lc := genLive(int64(i))
 		cp := filepath.Join(base, fmt.Sprintf("case%d.json", i))
@@ -136,6 +149,9 @@ func runLive(run *lib.Run) {
 		if res.CatchUpBound != "" {
 			run.Violation("live-late-joiner-not-served", fmt.Sprintf("live case %d: %s", i, res.CatchUpBound), map[string]interface{}{"case": lc, "result": res})
 			return
+		}
+		if len(lc.Handover) > 0 {
+			run.Count("live_handover_cases", 1)
 		}
 		if lc.Late >= 0 {
 			run.Count("live_late_join_cases", 1)
